@@ -19,6 +19,8 @@ use vm_api::VM;
 struct BenModel {
     /// pending proposal and who approved it, from observed successful calls
     pending: Option<(Address, TokenAmount, ChainEpoch, bool, bool)>,
+    /// who made the pending proposal (must still be the owner when it takes effect)
+    proposer: Option<Address>,
 }
 
 fn term_active(i: &InfoSnap, epoch: ChainEpoch) -> bool {
@@ -271,8 +273,14 @@ fn judge(pre: &InfoSnap, post: &InfoSnap, epoch: ChainEpoch, caller: Option<Addr
                 // a (new) proposal: read what was proposed from the post state or from the effect
                 let active = term_active(pre, epoch);
                 match &post.pending_beneficiary {
-                    Some(pb) => ben.pending = Some((pb.0, pb.1.clone(), pb.2, !active || c == pre.beneficiary, c == pb.0)),
-                    None => ben.pending = None, // took effect at once (checked below)
+                    Some(pb) => {
+                        ben.pending = Some((pb.0, pb.1.clone(), pb.2, !active || c == pre.beneficiary, c == pb.0));
+                        ben.proposer = Some(c);
+                    }
+                    None => {
+                        ben.pending = None; // took effect at once (checked below)
+                        ben.proposer = None;
+                    }
                 }
             } else if let Some(p) = ben.pending.as_mut() {
                 if c == pre.beneficiary {
@@ -302,11 +310,23 @@ fn judge(pre: &InfoSnap, post: &InfoSnap, epoch: ChainEpoch, caller: Option<Addr
                 }
                 _ => false,
             };
+            // the proposal must have been made by the party that is the owner now: a proposal of a
+            // previous owner dies with the handover
+            let by_current_owner = c == Some(pre.owner) || ben.proposer == Some(pre.owner);
+            if good && !by_current_owner {
+                o.violate("beneficiary_two_sided", "C13/beneficiary_changed_on_stale_proposal", format!("{when}: beneficiary {} -> {} by {:?}: the pending proposal was made by {:?}, but the owner is now {}", pre.beneficiary, post.beneficiary, caller, ben.proposer, pre.owner));
+            }
             if !good {
                 o.violate("beneficiary_two_sided", "C13/beneficiary_changed_without_both_approvals", format!("{when}: beneficiary {} (term {:?}) -> {} (term {:?}) by {:?}; pending was {:?}; observed approvals {:?}", pre.beneficiary, pre.term, post.beneficiary, post.term, caller, pre.pending_beneficiary, ben.pending));
             }
             ben.pending = None;
+            ben.proposer = None;
         }
+    }
+    if owner_moved {
+        // an owner handover withdraws whatever the previous owner had proposed
+        ben.pending = None;
+        ben.proposer = None;
     }
     let took_effect = post.beneficiary != pre.beneficiary || post.term.0 != pre.term.0 || post.term.2 != pre.term.2;
     if post.pending_beneficiary != pre.pending_beneficiary && !took_effect {
